@@ -20,6 +20,7 @@ EXPLANATION = (
     "C18.4 every SQE constructor is well-formed (sibling agreement over all new_* functions): opcode is the IoUringOp variant the name says, user_data and flags come from the parameters of those names, fd from the descriptor/dir-fd parameter (AT_FDCWD for None), each field is fed from the argument the kernel's prep function reads there (reviewed table c18_abi.json), every parameter reaches the entry and no field carries the caller's argument on some paths and a constant on others; "
     "C18.5 io_uring_enter / io_uring_register_* pass the ring descriptor and their arguments through to the system call and classify the result (C09). "
     "C18.6 a submission slot is handed out only while (tail + 1) - kernel_head <= ring_entries with the head the kernel publishes on every path, so no queued operation is overwritten before it was consumed, flush leaves the tail unpublished only when head == tail, and the completion read is entries + ((kernel_head & mask) << shift); "
+    "C18.4 also: every io_uring flag constant has the value of the kernel header (frozen table c18_flags.json) and no two names of one flag type share a bit. "
     "NOT decided: that results equal the direct system call's, one completion per submission (kernel behaviour).")
 ASSUMPTIONS = ["params.sq_entries == ring_entries read from the mapped ring (the kernel's two reports of one number)", "IORING_FEAT_SINGLE_MMAP semantics"]
 
